@@ -9,7 +9,10 @@ import (
 	"crypto/md5"
 	"encoding/hex"
 	"fmt"
+	"runtime"
 	"sort"
+	"strconv"
+	"strings"
 	"sync"
 	"time"
 
@@ -131,6 +134,14 @@ type c17Backend struct {
 	lock sync.Mutex
 	have map[int]bool
 	gate func(ctx context.Context, bk, op int, ids []int) int
+	// ret, if set, is told the outcome of every call.
+	ret func(ctx context.Context, bk, op int, ids []int, code int, ans []int)
+}
+
+func (b *c17Backend) done(ctx context.Context, op int, ids []int, err error, ans []int) {
+	if b.ret != nil {
+		b.ret(ctx, b.id, op, ids, c17Code(err), ans)
+	}
 }
 
 func newC17Backend(id int, init []int, gate func(ctx context.Context, bk, op int, ids []int) int) *c17Backend {
@@ -165,11 +176,15 @@ func (b *c17Backend) GetCapabilities(ctx context.Context, instanceName digest.In
 func (b *c17Backend) Get(ctx context.Context, d digest.Digest) buffer.Buffer {
 	id := c17ID(d)
 	if f := b.gate(ctx, b.id, 0, []int{id}); f != 0 {
+		b.done(ctx, 0, []int{id}, c17Err(f), nil)
 		return buffer.NewBufferFromError(c17Err(f))
 	}
 	if !b.has(id) {
-		return buffer.NewBufferFromError(status.Error(codes.NotFound, "object not found"))
+		err := status.Error(codes.NotFound, "object not found")
+		b.done(ctx, 0, []int{id}, err, nil)
+		return buffer.NewBufferFromError(err)
 	}
+	b.done(ctx, 0, []int{id}, nil, nil)
 	return buffer.NewValidatedBufferFromByteSlice(c17Contents[id])
 }
 
@@ -178,6 +193,12 @@ func (b *c17Backend) GetFromComposite(ctx context.Context, p, c digest.Digest, s
 }
 
 func (b *c17Backend) Put(ctx context.Context, d digest.Digest, buf buffer.Buffer) error {
+	err := b.put(ctx, d, buf)
+	b.done(ctx, 1, []int{c17ID(d)}, err, nil)
+	return err
+}
+
+func (b *c17Backend) put(ctx context.Context, d digest.Digest, buf buffer.Buffer) error {
 	id := c17ID(d)
 	if f := b.gate(ctx, b.id, 1, []int{id}); f != 0 {
 		buf.Discard()
@@ -199,6 +220,7 @@ func (b *c17Backend) Put(ctx context.Context, d digest.Digest, buf buffer.Buffer
 func (b *c17Backend) FindMissing(ctx context.Context, ds digest.Set) (digest.Set, error) {
 	ids := c17SetIDs(ds)
 	if f := b.gate(ctx, b.id, 2, ids); f != 0 {
+		b.done(ctx, 2, ids, c17Err(f), nil)
 		return digest.EmptySet, c17Err(f)
 	}
 	sb := digest.NewSetBuilder(0)
@@ -207,7 +229,9 @@ func (b *c17Backend) FindMissing(ctx context.Context, ds digest.Set) (digest.Set
 			sb.Add(d)
 		}
 	}
-	return sb.Build(), nil
+	missing := sb.Build()
+	b.done(ctx, 2, ids, nil, c17SetIDs(missing))
+	return missing, nil
 }
 
 // ---------------------------------------------------------------------------
@@ -722,7 +746,532 @@ func c17DistinctLen(s Sx) int {
 	return len(m)
 }
 
-// --- kind 2 stubs (replaced below) ---
-func (c17) execConc(in Sx) (Sx, bool)            { return Sx{}, false }
-func c17GenConc(r *Rand, tier string) Sx        { return c17GenSeq(r, tier) }
-func c17ClassConc(in, obs Sx) (string, bool)    { return "conc", false }
+// ---------------------------------------------------------------------------
+// kind 2: gated concurrent callers of a replicator decorator
+// ---------------------------------------------------------------------------
+
+type c17CallerKey struct{}
+
+type c17Parked struct {
+	bk, op  int
+	ids     []int
+	release chan int
+}
+
+// c17CountRepl sits between the decorator under test and the local
+// replicator and counts concurrent base calls per key and overall.
+type c17CountRepl struct {
+	base   replication.BlobReplicator
+	mu     sync.Mutex
+	perKey map[int]int
+	all    int
+	maxKey int
+	maxAll int
+}
+
+func (c *c17CountRepl) ReplicateSingle(ctx context.Context, d digest.Digest) buffer.Buffer {
+	return c.base.ReplicateSingle(ctx, d)
+}
+func (c *c17CountRepl) ReplicateComposite(ctx context.Context, p, ch digest.Digest, s slicing.BlobSlicer) buffer.Buffer {
+	return c.base.ReplicateComposite(ctx, p, ch, s)
+}
+func (c *c17CountRepl) ReplicateMultiple(ctx context.Context, ds digest.Set) error {
+	ids := c17SetIDs(ds)
+	c.mu.Lock()
+	c.all++
+	if c.all > c.maxAll {
+		c.maxAll = c.all
+	}
+	for _, i := range ids {
+		c.perKey[i]++
+		if c.perKey[i] > c.maxKey {
+			c.maxKey = c.perKey[i]
+		}
+	}
+	c.mu.Unlock()
+	err := c.base.ReplicateMultiple(ctx, ds)
+	c.mu.Lock()
+	c.all--
+	for _, i := range ids {
+		c.perKey[i]--
+	}
+	c.mu.Unlock()
+	return err
+}
+
+type c17Session struct {
+	mu       sync.Mutex
+	n        int
+	sets     [][]int
+	repl     replication.BlobReplicator
+	count    *c17CountRepl
+	sink     *c17Backend
+	clk      *c17Clock
+	ctxs     []context.Context
+	cancels  []context.CancelFunc
+	canc     []bool
+	started  []bool
+	finished []bool
+	codes    []int
+	gids     []uint64
+	parked   map[int]*c17Parked
+	log      []Sx
+	failed   bool
+}
+
+func (s *c17Session) now() int64 {
+	s.clk.lock.Lock()
+	defer s.clk.lock.Unlock()
+	return s.clk.t
+}
+
+func (s *c17Session) gate(ctx context.Context, bk, op int, ids []int) int {
+	i, _ := ctx.Value(c17CallerKey{}).(int)
+	p := &c17Parked{bk: bk, op: op, ids: ids, release: make(chan int)}
+	t := s.now()
+	s.mu.Lock()
+	s.log = append(s.log, L(A(1), AI(i), AI(bk), AI(op), LInts(ids), A(t)))
+	s.parked[i] = p
+	s.mu.Unlock()
+	return <-p.release
+}
+
+func (s *c17Session) ret(ctx context.Context, bk, op int, ids []int, code int, ans []int) {
+	i, _ := ctx.Value(c17CallerKey{}).(int)
+	t := s.now()
+	s.mu.Lock()
+	s.log = append(s.log, L(A(2), AI(i), AI(bk), AI(op), LInts(ids), AI(code), LInts(ans), A(t)))
+	s.mu.Unlock()
+}
+
+// newC17Session builds the decorator of the case header (mode, sets, source, sink).
+func newC17Session(in Sx) (*c17Session, bool) {
+	mode := in.Nth(1)
+	if mode.IsAtom || !c17Atom(mode.Nth(0), 0, 2) || in.Nth(2).IsAtom || in.Nth(2).Len() > 6 ||
+		!c17ValidIDs(in.Nth(3)) || !c17ValidIDs(in.Nth(4)) {
+		return nil, false
+	}
+	s := &c17Session{parked: map[int]*c17Parked{}, clk: &c17Clock{}}
+	for _, x := range in.Nth(2).List {
+		if !c17ValidIDs(x) {
+			return nil, false
+		}
+		ids := c17SetIDs(c17Set(x.Ints()))
+		s.sets = append(s.sets, ids)
+	}
+	s.n = len(s.sets)
+	source := newC17Backend(1, in.Nth(3).Ints(), s.gate)
+	source.ret = s.ret
+	s.sink = newC17Backend(0, in.Nth(4).Ints(), s.gate)
+	s.sink.ret = s.ret
+	s.count = &c17CountRepl{base: replication.NewLocalBlobReplicator(source, s.sink), perKey: map[int]int{}}
+	switch mode.Nth(0).Z {
+	case 0:
+		s.repl = replication.NewDeduplicatingBlobReplicator(s.count, s.sink, digest.KeyWithoutInstance)
+	case 1:
+		if !c17Atom(mode.Nth(1), 1, 16) {
+			return nil, false
+		}
+		s.repl = replication.NewConcurrencyLimitingBlobReplicator(s.count, s.sink, semaphore.NewWeighted(mode.Nth(1).Z))
+	case 2:
+		if !c17Atom(mode.Nth(1), 1, 64) || !c17Atom(mode.Nth(2), 0, c17MaxTime) {
+			return nil, false
+		}
+		ec := digest.NewExistenceCache(s.clk, digest.KeyWithoutInstance, mode.Nth(1).Int(), time.Duration(mode.Nth(2).Z)*time.Second, eviction.NewLRUSet[string]())
+		s.repl = replication.NewQueuedBlobReplicator(source, s.count, ec)
+	}
+	for i := 0; i < s.n; i++ {
+		ctx, cancel := context.WithCancel(context.WithValue(context.Background(), c17CallerKey{}, i))
+		s.ctxs = append(s.ctxs, ctx)
+		s.cancels = append(s.cancels, cancel)
+	}
+	s.canc = make([]bool, s.n)
+	s.started = make([]bool, s.n)
+	s.finished = make([]bool, s.n)
+	s.codes = make([]int, s.n)
+	s.gids = make([]uint64, s.n)
+	return s, true
+}
+
+func c17GoroutineID() uint64 {
+	var buf [64]byte
+	n := runtime.Stack(buf[:], false)
+	var id uint64
+	for _, c := range buf[len("goroutine "):n] {
+		if c < '0' || c > '9' {
+			break
+		}
+		id = id*10 + uint64(c-'0')
+	}
+	return id
+}
+
+// c17GoroutineStates parses "goroutine N [state, ...]:" headers of a full dump.
+func c17GoroutineStates() map[uint64]string {
+	buf := make([]byte, 1<<16)
+	for {
+		n := runtime.Stack(buf, true)
+		if n < len(buf) {
+			buf = buf[:n]
+			break
+		}
+		buf = make([]byte, 2*len(buf))
+	}
+	res := map[uint64]string{}
+	for _, line := range strings.Split(string(buf), "\n") {
+		if !strings.HasPrefix(line, "goroutine ") {
+			continue
+		}
+		rest := line[len("goroutine "):]
+		sp := strings.IndexByte(rest, ' ')
+		if sp < 0 {
+			continue
+		}
+		id, err := strconv.ParseUint(rest[:sp], 10, 64)
+		if err != nil {
+			continue
+		}
+		st := rest[sp+1:]
+		st = strings.TrimPrefix(st, "[")
+		if j := strings.IndexAny(st, ",]"); j >= 0 {
+			st = st[:j]
+		}
+		res[id] = st
+	}
+	return res
+}
+
+// waitQuiet returns when every started caller is parked in a gate, has
+// returned, or is blocked inside the decorator (select / channel receive).
+func (s *c17Session) waitQuiet() {
+	deadline := time.Now().Add(5 * time.Second)
+	for iter := 0; ; iter++ {
+		s.mu.Lock()
+		var unknown []uint64
+		ready := true
+		for i := 0; i < s.n; i++ {
+			if s.started[i] && !s.finished[i] && s.parked[i] == nil {
+				if s.gids[i] == 0 {
+					ready = false
+				}
+				unknown = append(unknown, s.gids[i])
+			}
+		}
+		s.mu.Unlock()
+		if len(unknown) == 0 {
+			return
+		}
+		if ready && iter >= 2 {
+			states := c17GoroutineStates()
+			quiet := true
+			for _, g := range unknown {
+				st, ok := states[g]
+				if ok && st != "select" && st != "chan receive" {
+					quiet = false
+				}
+			}
+			if quiet {
+				// A caller seen blocked may since have been woken by one seen
+				// running; re-validate against the flags.
+				s.mu.Lock()
+				same := true
+				k := 0
+				for i := 0; i < s.n; i++ {
+					if s.started[i] && !s.finished[i] && s.parked[i] == nil {
+						if k >= len(unknown) || unknown[k] != s.gids[i] {
+							same = false
+						}
+						k++
+					}
+				}
+				same = same && k == len(unknown)
+				s.mu.Unlock()
+				if same {
+					// All of them were blocked in one stop-the-world snapshot,
+					// and nobody else acts: nothing can change any more.
+					allBlocked := true
+					for _, g := range unknown {
+						if st, ok := states[g]; !ok || (st != "select" && st != "chan receive") {
+							allBlocked = false
+						}
+					}
+					if allBlocked {
+						return
+					}
+				}
+			}
+		}
+		if time.Now().After(deadline) {
+			s.failed = true
+			return
+		}
+		if iter < 50 {
+			runtime.Gosched()
+		} else {
+			time.Sleep(20 * time.Microsecond)
+		}
+	}
+}
+
+func (s *c17Session) start(i int) {
+	if i < 0 || i >= s.n || s.started[i] {
+		return
+	}
+	t := s.now()
+	s.mu.Lock()
+	s.started[i] = true
+	s.log = append(s.log, L(A(0), AI(i), A(t)))
+	s.mu.Unlock()
+	go func() {
+		g := c17GoroutineID()
+		s.mu.Lock()
+		s.gids[i] = g
+		s.mu.Unlock()
+		err := s.repl.ReplicateMultiple(s.ctxs[i], c17Set(s.sets[i]))
+		t := s.now()
+		s.mu.Lock()
+		s.codes[i] = c17Code(err)
+		s.log = append(s.log, L(A(3), AI(i), AI(c17Code(err)), A(t)))
+		s.finished[i] = true
+		s.mu.Unlock()
+	}()
+}
+
+func (s *c17Session) release(i, f int) {
+	s.mu.Lock()
+	p := s.parked[i]
+	delete(s.parked, i)
+	s.mu.Unlock()
+	if p != nil {
+		p.release <- f
+	}
+}
+
+func (s *c17Session) cancel(i int) {
+	if i < 0 || i >= s.n || s.canc[i] {
+		return
+	}
+	s.canc[i] = true
+	s.cancels[i]()
+}
+
+func (s *c17Session) advance(dt int64) {
+	s.clk.lock.Lock()
+	s.clk.t += dt
+	s.clk.lock.Unlock()
+}
+
+func (s *c17Session) apply(ev Sx) bool {
+	if ev.IsAtom || !c17Atom(ev.Nth(0), 0, 3) || !c17Atom(ev.Nth(1), 0, c17MaxTime) {
+		return false
+	}
+	switch ev.Nth(0).Z {
+	case 0:
+		s.start(ev.Nth(1).Int())
+	case 1:
+		if !c17Atom(ev.Nth(2), 0, 16) {
+			return false
+		}
+		s.release(ev.Nth(1).Int(), ev.Nth(2).Int())
+	case 2:
+		s.cancel(ev.Nth(1).Int())
+	case 3:
+		s.advance(ev.Nth(1).Z)
+	}
+	s.waitQuiet()
+	return true
+}
+
+func (s *c17Session) statuses() Sx {
+	s.mu.Lock()
+	defer s.mu.Unlock()
+	out := []Sx{}
+	for i := 0; i < s.n; i++ {
+		switch {
+		case !s.started[i]:
+			out = append(out, L(A(0)))
+		case s.finished[i]:
+			out = append(out, L(A(3), AI(s.codes[i])))
+		case s.parked[i] != nil:
+			p := s.parked[i]
+			out = append(out, L(A(1), AI(p.bk), AI(p.op), LInts(p.ids)))
+		default:
+			out = append(out, L(A(2)))
+		}
+	}
+	return L(out...)
+}
+
+func (s *c17Session) allDone() bool {
+	s.mu.Lock()
+	defer s.mu.Unlock()
+	for i := 0; i < s.n; i++ {
+		if s.started[i] && !s.finished[i] {
+			return false
+		}
+	}
+	return true
+}
+
+// summary is taken before close() unblocks whatever is still running.
+func (s *c17Session) summary(rounds []Sx) Sx {
+	s.count.mu.Lock()
+	mk, ma := s.count.maxKey, s.count.maxAll
+	s.count.mu.Unlock()
+	s.mu.Lock()
+	lg := append([]Sx(nil), s.log...)
+	s.mu.Unlock()
+	return L(L(rounds...), AI(mk), AI(ma), LInts(s.sink.contents()), L(lg...))
+}
+
+func (s *c17Session) close() {
+	for i := 0; i < s.n; i++ {
+		s.cancels[i]()
+	}
+	for k := 0; k < 1000 && !s.allDone() && !s.failed; k++ {
+		s.waitQuiet()
+		for i := 0; i < s.n; i++ {
+			s.release(i, 14)
+		}
+	}
+}
+
+func (c17) execConc(in Sx) (Sx, bool) {
+	if in.Len() != 6 || in.Nth(5).IsAtom {
+		return Sx{}, false
+	}
+	s, ok := newC17Session(in)
+	if !ok {
+		return Sx{}, false
+	}
+	defer s.close()
+	rounds := []Sx{}
+	for _, ev := range in.Nth(5).List {
+		if !s.apply(ev) {
+			return Sx{}, false
+		}
+		rounds = append(rounds, s.statuses())
+	}
+	if s.failed {
+		return L(A(-4)), true
+	}
+	return s.summary(rounds), true
+}
+
+// c17GenConc generates a schedule by running the implementation: the next
+// event is drawn among those that apply to the live state.
+func c17GenConc(r *Rand, tier string) Sx {
+	n := 2 + r.Intn(4)
+	nobj := 1 + r.Intn(4)
+	var mode Sx
+	switch x := r.Intn(100); {
+	case x < 50:
+		mode = L(A(0))
+	case x < 75:
+		mode = L(A(1), AI(1+r.Intn(3)))
+	default:
+		mode = L(A(2), AI(1+r.Intn(3)), AI(r.Pick([]int{0, 1, 2, 5, 1000})))
+	}
+	sets := []Sx{}
+	for i := 0; i < n; i++ {
+		k := r.Pick([]int{0, 1, 1, 1, 2, 2, 3})
+		xs := []int{}
+		for j := 0; j < k; j++ {
+			xs = append(xs, r.Intn(nobj))
+		}
+		sets = append(sets, LInts(xs))
+	}
+	src, snk := []int{}, []int{}
+	for i := 0; i < nobj; i++ {
+		if r.Chance(85) {
+			src = append(src, i)
+		}
+		if r.Chance(15) {
+			snk = append(snk, i)
+		}
+	}
+	header := L(A(2), mode, L(sets...), LInts(src), LInts(snk), L())
+	s, ok := newC17Session(header)
+	if !ok {
+		return header
+	}
+	defer s.close()
+	faultPct := r.Pick([]int{0, 10, 10, 25, 50})
+	cancelPct := r.Pick([]int{0, 0, 5, 15})
+	hold := -1
+	if r.Chance(40) {
+		hold = r.Intn(n)
+	}
+	eager := r.Chance(50)
+	evs := []Sx{}
+	maxEv := 40
+	if tier == "thorough" {
+		maxEv = 80
+	}
+	for len(evs) < maxEv {
+		var unstarted, parked, live []int
+		s.mu.Lock()
+		for i := 0; i < n; i++ {
+			if !s.started[i] {
+				unstarted = append(unstarted, i)
+			} else if !s.finished[i] {
+				if !s.canc[i] {
+					live = append(live, i)
+				}
+				if s.parked[i] != nil && (i != hold || r.Chance(10)) {
+					parked = append(parked, i)
+				}
+			}
+		}
+		s.mu.Unlock()
+		var ev Sx
+		switch {
+		case len(unstarted) > 0 && (eager || len(parked) == 0 || r.Chance(30)):
+			ev = L(A(0), AI(unstarted[r.Intn(len(unstarted))]))
+		case len(live) > 0 && r.Chance(cancelPct):
+			ev = L(A(2), AI(live[r.Intn(len(live))]))
+		case mode.Nth(0).Z == 2 && r.Chance(15):
+			ev = L(A(3), AI(r.Pick([]int{1, 1, 2, 5, 6})))
+		case len(parked) > 0:
+			f := 0
+			if r.Chance(faultPct) {
+				f = r.Pick(c17FaultCodes)
+			}
+			ev = L(A(1), AI(parked[r.Intn(len(parked))]), AI(f))
+		case hold >= 0:
+			hold = -1
+			continue
+		default:
+			if len(live) > 0 && r.Chance(50) {
+				// everybody left is blocked inside the decorator
+				ev = L(A(2), AI(live[r.Intn(len(live))]))
+			}
+		}
+		if ev.List == nil {
+			break
+		}
+		s.apply(ev)
+		evs = append(evs, ev)
+		if s.failed {
+			break
+		}
+	}
+	return L(A(2), mode, L(sets...), LInts(src), LInts(snk), L(evs...))
+}
+
+func c17ClassConc(in, obs Sx) (string, bool) {
+	mode := []string{"dedup", "limit", "queued"}[in.Nth(1).Nth(0).Int()%3]
+	blocked := false
+	for _, rd := range obs.Nth(0).List {
+		for _, st := range rd.List {
+			if st.Nth(0).Int() == 2 {
+				blocked = true
+			}
+		}
+	}
+	c := fmt.Sprintf("conc-%s/callers%d", mode, in.Nth(2).Len())
+	if blocked {
+		c += "/contended"
+	}
+	return c, blocked
+}
